@@ -6209,6 +6209,8 @@ class Path(Shape, MutableSequence):
         the second control point in the previous path."""
         for index in range(len(points)):
             start_pos = self.current_point
+            if start_pos is None:
+                raise ValueError("smooth curve without a current point")
             control1 = self.smooth_point
             if len(self._segments) != 0 and not isinstance(
                 self._segments[-1], QuadraticBezier
@@ -6227,6 +6229,8 @@ class Path(Shape, MutableSequence):
     def quad(self, *points, relative=False, **kwargs):
         for index in range(0, len(points), 2):
             start_pos = self.current_point
+            if start_pos is None:
+                raise ValueError("curve without a current point")
             control = points[index]
             if control in ("z", "Z"):
                 control = self.z_point
@@ -6251,6 +6255,8 @@ class Path(Shape, MutableSequence):
         the second control point in the previous path."""
         for index in range(0, len(points), 2):
             start_pos = self.current_point
+            if start_pos is None:
+                raise ValueError("smooth curve without a current point")
             control1 = self.smooth_point
             if len(self._segments) != 0 and not isinstance(
                 self._segments[-1], CubicBezier
@@ -6289,6 +6295,8 @@ class Path(Shape, MutableSequence):
     def cubic(self, *points, relative=False, **kwargs):
         for index in range(0, len(points), 3):
             start_pos = self.current_point
+            if start_pos is None:
+                raise ValueError("curve without a current point")
             control1 = points[index]
             if control1 in ("z", "Z"):
                 control1 = self.z_point
